@@ -391,15 +391,11 @@ class RuntimeV1_0(Runtime):
         next_steps = []
 
         if context_updates:
-            # We check if at least one key changed
-            changes = False
-            for k, v in context_updates.items():
-                if context.get(k) != v:
-                    changes = True
-                    break
-
-            if changes:
-                next_steps.append(new_event_dict("ContextUpdate", data=context_updates))
+            # We always record the update, even when the values are the same as in the
+            # current context: the context is computed over all the events, including
+            # turns that were hidden after a failed action (`hide_prev_turn`), while the
+            # flows are replayed without them and would otherwise see a stale value.
+            next_steps.append(new_event_dict("ContextUpdate", data=context_updates))
 
         next_steps.append(
             new_event_dict(
